@@ -52,6 +52,8 @@ struct MainStep { When when; Step s; bool dyn; };
 struct Script {
     std::vector<Step> steps;
     bool raii = true;       //!< release held mutexes on the way out (what Mutex::Locker does)
+    bool heed = true;       //!< stop at the first cancelled yield()/wait() or failed blocking call; false: carry on like the
+                            //!< README's `for (...) { ...; sch.yield(); }` loop does (the script is finite, so it still ends)
     bool run_now = true;
     bool initial = true;    //!< created by the main context before the loop starts
 };
@@ -87,6 +89,7 @@ struct World {
     std::vector<std::unique_ptr<Broadcast>> bc;
     std::vector<std::unique_ptr<Condition<int>>> cond;
     std::vector<int> sem_init;
+    int nbcast = 0;
     std::vector<int> cond_all;      //!< 1 = Logic::kAll
     std::vector<int> cond_owner;    //!< the only routine slot that adds to / waits on this condition
 
@@ -156,17 +159,17 @@ struct World {
     }
     std::string script_text() const {
         std::string t = "objects:";
-        t += vh::fmt(" channels=%zu mutexes=%zu", ch.size(), mx.size());
+        t += vh::fmt(" channels=%zu mutexes=%zu", sh_q.size(), sh_holder.size());
         t += " semaphores=[";
         for (size_t i = 0; i < sem_init.size(); ++i) t += vh::fmt("%s%d", i ? "," : "", sem_init[i]);
-        t += vh::fmt("] broadcasts=%zu conditions=[", bc.size());
+        t += vh::fmt("] broadcasts=%d conditions=[", nbcast);
         for (size_t i = 0; i < cond_all.size(); ++i)
             t += vh::fmt("%s%s:waiter=r%d", i ? "," : "", cond_all[i] ? "All" : "Any", cond_owner[i]);
         t += vh::fmt("] stack=%zu\n", stack_size);
         for (int i = 0; i < nrt; ++i) {
             const Script &sc = scripts[i];
-            t += vh::fmt("r%d(%s%s%s): ", i, sc.initial ? "initial" : "child", sc.run_now ? ",run_now" : ",run_later",
-                         sc.raii ? ",locker" : "");
+            t += vh::fmt("r%d(%s%s%s%s): ", i, sc.initial ? "initial" : "child", sc.run_now ? ",run_now" : ",run_later",
+                         sc.raii ? ",locker" : "", sc.heed ? "" : ",ignores-cancel");
             for (size_t k = 0; k < sc.steps.size(); ++k) { if (k) t += "; "; t += step_text(sc.steps[k]); }
             t += "\n";
         }
@@ -574,13 +577,13 @@ struct World {
                 case CWAIT: w->log(E_CALL, slot, s.op, s.a, 0, 0); ok = w->cond[s.a]->wait(); w->log(E_RET, slot, s.op, s.a, 0, ok); break;
                 case CPOST: w->log(E_CALL, slot, s.op, s.a, s.b, 0); w->cond[s.a]->post(s.b); w->log(E_RET, slot, s.op, s.a, s.b, 1); break;
                 case JOIN: w->log(E_CALL, slot, s.op, s.a, 0, 0); ok = sch.join(w->rt[s.a].tok); w->log(E_RET, slot, s.op, s.a, 0, ok); break;
-                case CREATE: w->do_create(slot, s.a); break;
+                case CREATE: if (!sch.isCanceled()) w->do_create(slot, s.a); break;   // a cancelled routine creates nothing (assumption)
                 case CANCEL: { w->log(E_CALL, slot, s.op, s.a, 0, 0); bool r = sch.cancel(w->rt[s.a].tok); w->log(E_RET, slot, s.op, s.a, 0, r); break; }
                 case RESUME: { w->log(E_CALL, slot, s.op, s.a, 0, 0); bool r = sch.resume(w->rt[s.a].tok); w->log(E_RET, slot, s.op, s.a, 0, r); break; }
                 default: break;
             }
             // a failed call in a cancelled routine ends it (a refused Condition::wait or join in a live routine does not)
-            if (!ok && sch.isCanceled()) break;
+            if (!ok && sch.isCanceled() && sc.heed) break;
         }
         if (sc.raii) {
             for (int m = 0; held; ++m, held >>= 1) {
@@ -674,7 +677,7 @@ struct World {
         for (int i = 0; i < nbc; ++i) bc.emplace_back(new Broadcast(*sch));
         for (int a : conds_all)
             cond.emplace_back(new Condition<int>(*sch, a ? Condition<int>::Logic::kAll : Condition<int>::Logic::kAny));
-        sem_init = sems; cond_all = conds_all; cond_owner = owners;
+        sem_init = sems; cond_all = conds_all; cond_owner = owners; nbcast = nbc;
         sh_q.resize(nch); sh_holder.assign(nmx, -1); sh_count = sems; sh_cond.resize(conds_all.size()); mx_handoff.assign(nmx, 0);
         ev.reserve(1024);
     }
@@ -733,11 +736,11 @@ Weights theme_weights(int theme) {
 }
 
 void sign(vh::Sig &sig, const World &w) {
-    sig.add(w.ch.size()); sig.add(w.mx.size()); sig.add(w.bc.size());
+    sig.add(w.sh_q.size()); sig.add(w.sh_holder.size()); sig.add(w.nbcast);
     for (int v : w.sem_init) sig.add(100 + v);
     for (size_t i = 0; i < w.cond_all.size(); ++i) sig.add(200 + w.cond_all[i] * 16 + w.cond_owner[i]);
     for (auto &sc : w.scripts) {
-        sig.add(0xABCD00 + sc.raii * 4 + sc.run_now * 2 + sc.initial);
+        sig.add(0xABCD00 + sc.heed * 8 + sc.raii * 4 + sc.run_now * 2 + sc.initial);
         for (auto &s : sc.steps) sig.add(((uint64_t)s.op << 32) ^ ((uint64_t)(s.a & 0xffff) << 16) ^ (uint64_t)(s.b & 0xffff));
     }
     for (auto &m : w.mainprog)
@@ -788,6 +791,7 @@ void random_case(uint64_t, vh::Rng &r) {
         sc.initial = i < ninit;
         sc.run_now = !r.chance(1, 6);
         sc.raii = !r.chance(1, 4);
+        sc.heed = !r.chance(1, 4);
         int len = 1 + (int)r.below(themed ? 6 : 8);
         std::vector<Step> &st = sc.steps;
         std::vector<Step> pending_unlock;       // (step, remaining distance)
